@@ -763,17 +763,18 @@ def check_pool(run: Run, prog: Program) -> None:
             text(c.func.value) == "self._component_status_sender" and [text(x) for x in c.args] == ["self._current_status"]
 
     seen: set[str] = set()
+    all_ok = True
     for value, want in MEMBERSHIP.items():
         side = [p for p in paths if value in possible(p)]
         seen |= {value} if any(possible(p) == {value} for p in side) else set()
         bad = first([p for p in side if any(membership(p, w)[0] != how for w, how in want.items())])
         got = {w: membership(bad, w)[0] for w in want} if bad is not None else {}
-        run.check(bool(side) and bad is None, "C16.POOL", fn.qual, f"{value}: " + ", ".join(f"{w} {h}" for w, h in want.items()),
+        all_ok &= run.check(bool(side) and bad is None, "C16.POOL", fn.qual, f"{value}: " + ", ".join(f"{w} {h}" for w, h in want.items()),
                   f"after a {value} status the component is left {got} instead of {want}: a battery reported "
                   f"{'not working' if value == 'NOT_WORKING' else value.lower()} is still published in a set from which "
                   "get_working_components() hands it out", node=fn.node, file=fn.file, path=wit(bad),
                   instance=f"{fn.qual}: membership after {value}")
-    if seen != set(members):
+    if all_ok and seen != set(members):  # nothing wrong found, but some status value is never told apart
         raise AnalysisError(f"{fn.qual}: no path handles exactly {sorted(set(members) - seen)}")
     bad = first([p for p in paths if p.exit not in ("fall", "continue") or not any(
         i > max(membership(p, "working")[1], membership(p, "uncertain")[1]) for i, _c in p.calls(is_publish))])
